@@ -98,7 +98,7 @@ def run_request_case(case) -> dict:
                                 f"{detail}; stub_len={n} vt={vtv} sig={sig} header_sign={hs} auth={auth} outcome={out.brief()} {out.exc!r}")
 
     probes = {f"hs_{hs}_auth_{auth}": 1, f"residue_{n % 16}": 1}
-    res = {"digest": world.digest() + out.brief(), "key": common.key_hash(case), "fired": {}, "probes": probes,
+    res = {"digest": world.digest() + out.brief(), "key": common.key_hash(case), "fired": {"second_party_observations": 1}, "probes": probes,
            "vtime_ns": world.stats.get("vtime_ns", 0), "viol": None}
     reqs = [e for e in srv.log if e.get("event") == "request"]
     if len(reqs) != 1:
@@ -254,7 +254,7 @@ def run_reply_case(case) -> dict:
             out = drive.classify(lambda: drive.run_async(world, lambda: dclient._async_get_key(DC, sd, rk.root_key_id, -1, -1, -1), random.Random(kl)))
     pads = {k: v for k, v in world.stats.items() if k.startswith("reply_pad_")}
     probes = dict(pads)
-    res = {"digest": world.digest() + out.brief(), "key": common.key_hash(case), "fired": {}, "probes": probes,
+    res = {"digest": world.digest() + out.brief(), "key": common.key_hash(case), "fired": {"reply_pad_policy_" + pad_mode.split(":")[0]: 1}, "probes": probes,
            "vtime_ns": world.stats.get("vtime_ns", 0), "viol": None}
 
     def V(cond, detail):
